@@ -15,7 +15,8 @@ CONSTANTS
   ActorOf <- MCActorOf
 INIT Init
 NEXT Next
-VIEW View
+VIEW noopView
+CONSTRAINT NoopBound1
 ACTION_CONSTRAINT Edge
 INVARIANTS TypeOK UniqueIds RefinesA EachOnce Converge ClockOK DupNoop ValidateOpOK MergeLaws Hybrid
 PROPERTY IndexSemantics
